@@ -25,19 +25,14 @@ def dictionary(value, dictionary_class):
 
 def number(value):
     regexps = (
-        r"^\-?\d+$",  # int
-        r"^\-?\d+\.\d+$",
-        r"^\-?\d+\.$",
-        r"^\-?\.\d+$",  # float
-        r"^\-?\d+:\d{2}$",  # :mm
-        r"^\-?\d+:\d{2}\.\d+$",  # :mm.m
-        r"^\-?\d+:\d{2}:\d{2}$",  # :mm:ss
-        r"^\-?\d+:\d{2}:\d{2}\.\d+$",  # :mm:ss.s
+        r"^[+-]?(\d+\.?\d*|\.\d+)([eE][+-]?\d+)?$",  # int, float
+        r"^[+-]?\d+[:; ]\d{1,2}(\.\d*)?$",  # :mm, :mm.m
+        r"^[+-]?\d+[:; ]\d{1,2}[:; ]\d{1,2}(\.\d*)?$",  # :mm:ss, :mm:ss.s
     )
     if value is None:
         return None
 
-    if not any([re.match(r, str(value)) for r in regexps]):
+    if not any([re.match(r, str(value).strip()) for r in regexps]):
         raise ValueError("Invalid value for number: %s", value)
 
     return value
